@@ -670,11 +670,65 @@ def c12_one(w, inp, c):
     d3, e = try_(CodeData.from_code, c)
     if views(d) != v0 or (e is None and views(d3) != v0):
         w.violation('C12:mutating-returned-parameters-changes-codedata', inp, {})
+    c12_after_failure(w, inp, c, d)
     # the heap model's prediction: from_json_data modifies no input node  (model tie on the set of modified nodes)
     if len(ref) < 20000:
         w.op('M', 'heapfromjson ' + ser.s_json(json.loads(ref)), 'OK modified=0')
     w.seen(ser.s_code(c))
     w.sample({'label': inp['label'], 'history': hist[:6]})
+
+
+def broken_variants(d):
+    """(label, CodeData) pairs on which to_code() must raise, at different depths of the assembling: an operand override
+    that leaves a gap in its table (refused by to_tuple after every byte was assembled), an opcode name the interpreter
+    does not have (KeyError in the middle), a jump to a block that does not exist (KeyError in the width loop)"""
+    blocks = [list(b) for b in d.blocks]
+    pos = [(bi, ii) for bi, b in enumerate(blocks) for ii in range(len(b))]
+    out = []
+    for bi, ii in pos[1:] + pos[:1]:
+        a = blocks[bi][ii].arg
+        if dataclasses.is_dataclass(a) and hasattr(a, '_index_override'):
+            nb = [list(b) for b in blocks]
+            nb[bi][ii] = dataclasses.replace(nb[bi][ii], arg=dataclasses.replace(a, _index_override=100000))
+            out.append(('gap-override', dataclasses.replace(d, blocks=tuple(tuple(b) for b in nb))))
+            break
+    if pos:
+        bi, ii = pos[-1]
+        nb = [list(b) for b in blocks]
+        nb[bi][ii] = dataclasses.replace(nb[bi][ii], name='NO_SUCH_OPCODE')
+        out.append(('unknown-opcode', dataclasses.replace(d, blocks=tuple(tuple(b) for b in nb))))
+        nb = [list(b) for b in blocks]
+        jop = 'JUMP_ABSOLUTE' if 'JUMP_ABSOLUTE' in __import__('dis').opmap else 'JUMP_FORWARD'
+        nb[bi][ii] = dataclasses.replace(nb[bi][ii], name=jop, arg=cd.Jump(target=len(blocks) + 7, relative=(jop != 'JUMP_ABSOLUTE')))
+        out.append(('jump-to-missing-block', dataclasses.replace(d, blocks=tuple(tuple(b) for b in nb))))
+    return out
+
+
+def c12_after_failure(w, inp, c, d):
+    """a call that raises must leave nothing behind: the next to_code / from_code / to_json_data on unrelated, valid
+    arguments gives what it gave before (seeded change C12-r7: a scratch buffer shared between calls and cleared only
+    when a call returns normally)"""
+    ref_code, e = try_(lambda: ser.s_code(d.to_code()))
+    if e is not None:
+        return
+    ref_data = ser.s_data(d)
+    ref_json = json.dumps(d.to_json_data(), sort_keys=True)
+    for label, bad in broken_variants(d):
+        _, e = try_(bad.to_code)
+        w.stats['calls'] += 1
+        if e is None:
+            w.stats['c12_broken_variant_did_not_raise'] += 1
+            continue
+        w.stats['c12_failed_calls_followed_up'] += 1
+        got, e2 = try_(lambda: ser.s_code(d.to_code()))
+        if e2 is not None or got != ref_code:
+            w.violation('C12:to_code-after-failed-call-differs:' + label, inp,
+                        {'failed_call': 'to_code() of the data with ' + label, 'raised': type(e).__name__,
+                         'then': 'to_code() of the unchanged valid data', 'error': O.exc_str(e2) if e2 is not None else None})
+            try_(d.to_code)   # let the state settle, so that one leak is reported once per variant
+        d2, e3 = try_(CodeData.from_code, c)
+        if e3 is not None or ser.s_data(d2) != ref_data or json.dumps(d.to_json_data(), sort_keys=True) != ref_json:
+            w.violation('C12:decode-after-failed-call-differs:' + label, inp, {'raised': type(e).__name__})
 
 
 def snapshot_value(res):
